@@ -68,6 +68,23 @@ func (g *scopeGen) expr(depth int, scope []string) string {
 			binds = append(binds, v+" = "+g.bind(depth-1, scope))
 		}
 		inner := append(append([]string{}, scope...), names...)
+		if len(names) >= 5 && r.Chance(50) {
+			// some names bound a second time in the same let (which binding wins is not pinned,
+			// so the body may use only the others): whatever the parser does to resolve the
+			// duplicates must not disturb the names bound once
+			again := map[string]bool{}
+			for k := 0; k < 1+r.Intn(3); k++ {
+				v := gen.Pick(r, names)
+				again[v] = true
+				binds = append(binds, v+" = "+g.bind(depth-1, scope))
+			}
+			inner = append([]string{}, scope...)
+			for _, v := range names {
+				if !again[v] {
+					inner = append(inner, v)
+				}
+			}
+		}
 		return "let " + strings.Join(binds, ", ") + " in " + g.expr(depth-1, inner)
 	case 2:
 		return "[" + g.expr(depth-1, scope) + ", " + g.expr(depth-1, scope) + "]"
@@ -249,6 +266,13 @@ var c19Shapes = []string{
 	"let $a = id in (xs[*] | [0] | [$a, id])",
 	"let $a = 'A' in xs[*].{k: let $b = id in [$a, $b], j: $a}",
 	"let $n = `2` in xs[?n > $n].[id, let $n = n in xs[?n > $n].id]",
+	// names bound twice in one let do not disturb the names bound once
+	"let $a = `1`, $b = `2`, $c = `3`, $d = `4`, $e = `5`, $f = `6`, $g = `7`, $h = `8`, $i = `9`, $a = `1`, $b = `2` in $c",
+	"let $a = `1`, $b = `2`, $c = `3`, $d = `4`, $e = `5`, $f = `6`, $g = `7`, $h = `8`, $i = `9`, $a = `1`, $b = `2` in [$c, $d, $e, $f, $g, $h, $i]",
+	"let $c = 'outer' in let $a = `1`, $b = `2`, $c = `3`, $d = `4`, $e = `5`, $f = `6`, $g = `7`, $h = `8`, $i = `9`, $b = `0`, $a = `0` in [$c, $i]",
+	"let $a = 'x', $b = 'y', $a = 'z' in $b",
+	"let $a = id, $b = n, $c = id, $b = id, $a = n in xs[*].[$c, id]",
+	"let $a = `1`, $b = `2`, $c = `3`, $d = `4`, $e = `5`, $f = `6`, $g = `7`, $h = `8`, $i = `9`, $j = `10`, $k = `11`, $l = `12`, $c = `0`, $f = `0`, $i = `0` in [$a, $b, $d, $e, $g, $h, $j, $k, $l]",
 	// lets inside the binding expressions of a let with several bindings
 	"let $a = 'a0', $b = 'b0', $c = 'c0' in let $a = (let $t = 't' in 'a1'), $b = (let $t = 't' in 'b1') in [$a, $b, $c]",
 	"let $a = (let $t = id in $t), $b = (let $u = n in $u), $c = (let $v = 'c' in $v) in [$a, $b, $c]",
@@ -293,7 +317,7 @@ func c19ShapesRun(c *Ctx, idx int) {
 func init() {
 	Register(&Property{
 		ID:            "C19",
-		Rule:          "let-expressions over variables {$a,$b,$c} whose bound values are unique tagged literals or context-dependent selections (id of the current node), so the result says which binding and which context was captured: 71 canonical scope shapes (incl. wide lets of 6-10 bindings followed by narrow lets that look up unbound or outer names) (rebinding, null-valued inner bindings shadowing non-null outer ones at every kind of use site, shadowing, let $a = $a, sibling references, use after the body, bindings under projections/filters/pipes/multi-selects/sort_by, max_by, min_by, map, group_by expression references, nested lets rebinding per element, unbound references at every kind of site, short-circuited unbound references) plus seeded random nestings of depth 3-4 mixing all of those; compared with the reference model's lexical environments; non-trivial = model decides and the text uses a variable",
+		Rule:          "let-expressions over variables {$a,$b,$c} whose bound values are unique tagged literals or context-dependent selections (id of the current node), so the result says which binding and which context was captured: 77 canonical scope shapes (incl. wide lets of 6-10 bindings followed by narrow lets that look up unbound or outer names) (rebinding, null-valued inner bindings shadowing non-null outer ones at every kind of use site, shadowing, let $a = $a, sibling references, use after the body, bindings under projections/filters/pipes/multi-selects/sort_by, max_by, min_by, map, group_by expression references, nested lets rebinding per element, unbound references at every kind of site, short-circuited unbound references) plus seeded random nestings of depth 3-4 mixing all of those; compared with the reference model's lexical environments; non-trivial = model decides and the text uses a variable",
 		MinNontrivial: 1000,
 		Streams: []Stream{
 			{Name: "shapes", Setup: c19Setup, N: func(c *Ctx) int { return len(c19Shapes) }, Run: c19ShapesRun, Exhaustive: true},
